@@ -26,6 +26,19 @@ type C08Rule struct {
 	// LongDesc: the description is followed by that many further characters (one source line
 	// of more than 64 KB)
 	LongDesc int `json:"long_desc,omitempty"`
+	// Empty (C08 only): the rule has an empty body; it exists, runs nothing, returns nothing
+	// (its tag in the model is -1)
+	Empty bool `json:"empty,omitempty"`
+}
+
+// c08WithEmpties marks about one rule in eight as empty-bodied.
+func c08WithEmpties(t *rapid.T, pfx string, rs []C08Rule) []C08Rule {
+	for i := range rs {
+		if pct(t, fmt.Sprintf("%sempty%d", pfx, i), 12) {
+			rs[i].Empty = true
+		}
+	}
+	return rs
 }
 
 func (r C08Rule) desc() string { return r.Desc + strings.Repeat("x", r.LongDesc) }
@@ -64,6 +77,11 @@ func c08Text(rules []C08Rule, tagBase int64) (string, map[string]int64) {
 		if r.NoSal {
 			sal = ""
 		}
+		if r.Empty {
+			tags[r.Name] = -1
+			fmt.Fprintf(&b, "rule %q %q%s\nbegin\nend\n", r.Name, r.desc(), sal)
+			continue
+		}
 		fmt.Fprintf(&b, "rule %q %q%s\nbegin\n  S(@name)\n  info(@name, @sal, @desc)\n  return %d\nend\n", r.Name, r.desc(), sal, tag)
 	}
 	return b.String(), tags
@@ -95,7 +113,7 @@ func genC08Rules(t *rapid.T, pfx string, step int) []C08Rule {
 func init() {
 	register(&Prop{
 		ID:   "C08",
-		Rule: "operation histories of up to 25 steps on one RuleBuilder: BuildRuleFromString / BuildRuleWithIncremental with 1-5 rules per call over a universe of 8 names and saliences -1..3 (new names, same name same salience, same name changed salience, ties, several rules per call) and RemoveRules with 1-4 names (present, absent, empty list), rejected incremental and full builds whose text holds complete valid rules before the error (duplicate name, syntax error, untokenisable character), re-submission of the byte-identical text of the last full or last incremental build; every rule body reports its compile-time @sal/@desc and returns a tag fresh per (name, build); oracle = model map name -> (salience, description, tag): after every step the sort model must run exactly the model's rules, each once, in non-increasing order of the current saliences, returning the current tags and reporting the current salience/description, IsExist over the whole universe must agree, and the empty set must report 'no rule' without running anything. Non-trivial: the history changes the salience of an existing rule and later performs another incremental build, or >= 2 incremental builds touch one tie group; distinct by case hash",
+		Rule: "operation histories of up to 25 steps on one RuleBuilder: BuildRuleFromString / BuildRuleWithIncremental with 1-5 rules per call over a universe of 8 names and saliences -1..3 (new names, same name same salience, same name changed salience, ties, several rules per call) and RemoveRules with 1-4 names (present, absent, empty list), rejected incremental and full builds whose text holds complete valid rules before the error (duplicate name, syntax error, untokenisable character), re-submission of the byte-identical text of the last full or last incremental build; every rule body reports its compile-time @sal/@desc and returns a tag fresh per (name, build), about one rule in eight has an empty body instead (it exists, runs nothing and returns nothing); oracle = model map name -> (salience, description, tag): after every step the sort model must run exactly the model's rules, each once, in non-increasing order of the current saliences, returning the current tags and reporting the current salience/description, IsExist over the whole universe must agree, and the empty set must report 'no rule' without running anything. Non-trivial: the history changes the salience of an existing rule and later performs another incremental build, or >= 2 incremental builds touch one tie group; distinct by case hash",
 		New:  func() interface{} { return &C08Case{} },
 		Gen: func(t *rapid.T) interface{} {
 			c := &C08Case{}
@@ -108,9 +126,9 @@ func init() {
 				switch k := uni(t, pfx+"kind", 0, 9); {
 				case i == 0 && pct(t, "first_op_incremental", 35):
 					// the history of a fresh builder starts with an incremental build
-					c.Ops = append(c.Ops, C08Op{Kind: "incr", Rules: genC08Rules(t, pfx, i)})
+					c.Ops = append(c.Ops, C08Op{Kind: "incr", Rules: c08WithEmpties(t, pfx, genC08Rules(t, pfx, i))})
 				case k <= 1 || i == 0:
-					c.Ops = append(c.Ops, C08Op{Kind: "full", Rules: genC08Rules(t, pfx, i)})
+					c.Ops = append(c.Ops, C08Op{Kind: "full", Rules: c08WithEmpties(t, pfx, genC08Rules(t, pfx, i))})
 				case k == 2:
 					if pct(t, pfx+"re_incr", 60) {
 						c.Ops = append(c.Ops, C08Op{Kind: "reincr"})
@@ -122,9 +140,9 @@ func init() {
 					if pct(t, pfx+"badfull", 25) {
 						kind = "badfull"
 					}
-					c.Ops = append(c.Ops, C08Op{Kind: kind, Rules: genC08Rules(t, pfx, i), Bad: uni(t, pfx+"badkind", 0, 2)})
+					c.Ops = append(c.Ops, C08Op{Kind: kind, Rules: c08WithEmpties(t, pfx, genC08Rules(t, pfx, i)), Bad: uni(t, pfx+"badkind", 0, 2)})
 				case k <= 6:
-					c.Ops = append(c.Ops, C08Op{Kind: "incr", Rules: genC08Rules(t, pfx, i)})
+					c.Ops = append(c.Ops, C08Op{Kind: "incr", Rules: c08WithEmpties(t, pfx, genC08Rules(t, pfx, i))})
 				default:
 					nr := uni(t, pfx+"nrem", 0, 4)
 					perm := rapid.Permutation(c08Universe).Draw(t, pfx+"rem")
@@ -327,6 +345,14 @@ func init() {
 				}
 				sort.Strings(want)
 				for _, n := range want {
+					if model[n].tag == -1 {
+						x.Class("installed-set-holds-an-empty-bodied-rule")
+						if cnt[n] != 0 || res[n] != nil {
+							x.Violation("set:"+sig, "step %d: rule %q has an empty body but started %d times / returned %v\nhistory %s", step, n, cnt[n], res[n], hist())
+							return
+						}
+						continue
+					}
 					if cnt[n] != 1 {
 						x.Violation("set:"+sig, "step %d: rule %q ran %d times, the denoted set is %v, started %v\nhistory %s", step, n, cnt[n], want, started, hist())
 						return
@@ -345,6 +371,9 @@ func init() {
 					}
 				}
 				for n, e := range model {
+					if e.tag == -1 {
+						continue
+					}
 					if fmt.Sprint(res[n]) != fmt.Sprint(e.tag) {
 						x.Violation("body:"+sig, "step %d: rule %q returned %v, its current version returns %d\nhistory %s", step, n, res[n], e.tag, hist())
 						return
